@@ -10,6 +10,11 @@ struct L10 : Listener {
     void after(Interp &in, const Op &op, size_t i, const Outcome &o) override {
         if (o.undocumented) { r.tags.insert("ended-by-undocumented-accepted-deviation"); stop = true; return; }
         gt.after(op, o); gt.afterLoad(in, op, o);
+        if (op.code == "param" && o.threw && (o.note == "set-refused" || o.note == "set-refused-on-copy")) {
+            // a refused Parameter::set ("inconsistent dimensions") must leave the parameter it was called on as it was
+            ParamSpec sp = in.specOf(op);
+            if (!sp.dims.empty()) { ++refused; ++partly; std::string m2 = refusedSetLeavesParameterUnchanged(sp); if (!m2.empty()) { r.fail("op " + std::to_string(i) + " (param): " + m2); stop = true; return; } }
+        }
         if (o.skipped || !o.threw || !o.mutating) return;
         ++refused;
         Snap post = takeSnap(in.o());
